@@ -364,7 +364,7 @@ func genC09(c *Ctx) {
 		p := livePosition(c.R, 3+c.R.Intn(4))
 		c.Count("clonemcts." + c.Emit(fmt.Sprintf("clonemcts %s %d %s", []string{"-", "uniform", "place_win"}[c.R.Intn(3)], 1+c.R.Intn(1000), encPos(p))))
 	}
-	n := c.Scale(1400, 100000)
+	n := c.Scale(1400, 60000)
 	const nslots = 6
 	for k := 0; k < n; k++ {
 		c.Emit(fmt.Sprintf("case %d", k))
